@@ -129,8 +129,8 @@ def build_harness_cmd(ctx, pkg, name):
 TLC_CP = "/opt/veriftools/tla/tla2tools.jar:/opt/veriftools/tla/CommunityModules-deps.jar"
 
 
-def _tlc_cmd(args, heap=None, dfs=False):
-    cmd = ["java", "-XX:+UseParallelGC", "-Xss512m"]
+def _tlc_cmd(args, heap=None, dfs=False, gcthreads=None):
+    cmd = ["java", "-XX:+UseParallelGC", "-XX:ParallelGCThreads=%d" % (gcthreads or 4), "-Xss512m"]
     if heap:
         cmd.append("-Xmx%s" % heap)
     if dfs:
@@ -268,6 +268,7 @@ def validate_trace(ctx, module, obs_rows, cfg=None, shard=4000, timeout=1800, wo
     canary(row, rng) -> corrupted copy or None; planted canaries must be
     rejected, otherwise the oracle is vacuous (Inconclusive).
     Returns (bad_rows, drift_rows) as lists of (row, reasons)."""
+    _t0 = time.time()
     rng = random.Random(ctx.seed * 7919 + 17)
     shards = [obs_rows[i:i + shard] for i in range(0, len(obs_rows), shard)] or [[]]
     procs = []
@@ -295,7 +296,7 @@ def validate_trace(ctx, module, obs_rows, cfg=None, shard=4000, timeout=1800, wo
         cfgname = cfg or (module + ".cfg")
         args = ["-metadir", os.path.join(d, "meta"), "-workers", str(workers_per), "-config", cfgname,
                 module + ".tla"]
-        p = subprocess.Popen(_tlc_cmd(args, dfs=dfs), cwd=d, stdout=subprocess.PIPE, stderr=subprocess.STDOUT)
+        p = subprocess.Popen(_tlc_cmd(args, dfs=dfs, gcthreads=2, heap="3g"), cwd=d, stdout=subprocess.PIPE, stderr=subprocess.STDOUT)
         procs.append((p, d, rows, canaries))
         # bound parallelism
         while sum(1 for q in procs if q[0].poll() is None) >= max(1, NCPU // 2):
@@ -335,6 +336,7 @@ def validate_trace(ctx, module, obs_rows, cfg=None, shard=4000, timeout=1800, wo
                 drift_rows.append((rows[ln - 1], why))
         ctx.traces += len(rows) - len(canaries)
     ctx.cov["canaries_planted_and_rejected"] = ctx.cov.get("canaries_planted_and_rejected", 0) + ncanary_total
+    log("trace validation %s: %d rows in %d shards, %.1fs" % (module, len(obs_rows), len(shards), time.time() - _t0))
     return bad_rows, drift_rows
 
 
